@@ -98,7 +98,7 @@ package core
 //@   ensures[C09,@include-keeps-pending] core.currentDirective == old(core.currentDirective) && core.currentContextDirective == old(core.currentContextDirective)
 //@   ensures[C19,@ban-checked] imp(banned(core, directive.Include), result != nil && result.File == keyword.file && result.Index == keyword.begin)
 //@   ensures scanner.itemsOK(core.scannersStack)
-//@   ensures[C07,C09,@include-position] imp(result == nil, len(core.scannersStack.stack) == old(len(core.scannersStack.stack)) + 1
+//@   ensures[C07,C09,C14,@include-position] imp(result == nil, len(core.scannersStack.stack) == old(len(core.scannersStack.stack)) + 1
 //@       && core.scannersStack.stack[len(core.scannersStack.stack)-1].scanner == old(core.scanner)
 //@       && core.scannersStack.stack[len(core.scannersStack.stack)-1].at == keyword.begin)
 
@@ -116,7 +116,8 @@ package core
 //@            b <= e && b < len(f.content.data))
 
 // what attaching a directive to the tree may change: the context cursor, the root list, and Parent/Children links
-//@ modset treeMod(core) := core.currentContextDirective, core.currentDirective, core.directives, core.directives[:],
+//@ ghost field JApiCore.gCtxAfterDirective *directive.Directive
+//@ modset treeMod(core) := core.currentContextDirective, core.currentDirective, core.gCtxAfterDirective, core.directives, core.directives[:],
 //@     allfield(directive.Directive, Parent), allfield(directive.Directive, Children), allelems(*directive.Directive)
 
 // skippedAll(a, c, t): every context from a (inclusive) up to c (exclusive) along the Parent chain is implicit and does not
@@ -158,6 +159,7 @@ package core
 //@   ensures imp(result == nil, core.currentDirective == nil)
 //@   ensures imp(result != nil, core.currentDirective == old(core.currentDirective))
 //@   ensures imp(old(core.currentDirective) == nil, result == nil)
+//@   ghost core.gCtxAfterDirective := core.currentContextDirective
 
 // ---------------------------------------------------------------------------
 // Banned directives (C19). The set is written only by the option, before the build.
@@ -232,6 +234,15 @@ package core
 //@ func (*JApiCore).closeLastExplicitContext loop 1
 //@   invariant implicitTo(old(core.currentContextDirective), core.currentContextDirective)
 
+// ")" : the pending directive is placed first, then the innermost explicit context - counted from where that placement left
+// the cursor (ghost gCtxAfterDirective) - is closed (C11)
+//@ func (*JApiCore).processContextEnd(core)
+//@   property C11,C01
+//@   requires coreScanInv(core) && imp(core.currentDirective != nil, directive.dirOK(core.currentDirective) && core.currentDirective.Parent == nil)
+//@   modifies treeMod(core)
+//@   ensures[C11,@closes-innermost-explicit] imp(result == nil, exists(w, implicitTo(core.gCtxAfterDirective, w) && w != 0
+//@       && (*directive.Directive)(w).HasExplicitContext && core.currentContextDirective == (*directive.Directive)(w).Parent))
+//@   ensures imp(result == nil, coreScanInv(core))
 //@ func (*JApiCore).processEOF(core)
 //@   property C01,C11,C09
 //@   requires coreScanInv(core)
